@@ -260,13 +260,7 @@ def run(ctx, ck):
                 ok = (ma.group(2) == ('1' if first_is_zen else '0')) and (mz.group(2) == ('0' if first_is_zen else '1'))
     ck.ob('R-EXH.grid-to-table', far.qual + '|angle-grid', ok, far.loc(),
           'printed angles = meshgrid of both Angle.angle_deg() lists')
-    for q in ('mininec.Far_Field_Pattern.db_as_mininec', 'mininec.Far_Field_Pattern.abs_gain_as_mininec'):
-        w = m.func(q)
-        wfl = ctx.flow(w)
-        for l in [x for x in loops_in(w.node) if isinstance(x, ast.For)]:
-            mn, mx = loop_reaches_on_all_paths(wfl, l, lambda n: n.kind == 'stmt' and isinstance(n.stmt, ast.Expr)
-                                               and isinstance(n.stmt.value, ast.Call) and
-                                               isinstance(n.stmt.value.func, ast.Attribute) and
-                                               n.stmt.value.func.attr == 'append')
-            ck.ob('R-EXH.grid-to-table', q, (mn, mx) == (1, 1), w.loc(l), 'one row per grid entry')
+    # the row writers: row k of the table is entry k of the flattened angle grid, in grid order (shared with C10)
+    from .C10 import check_row_writers
+    check_row_writers(ctx, ck, rule_rows='R-EXH.grid-to-table', rule_cols='R-EXH.grid-to-table')
     ck.undecided += ['documented axis order of the near-field points']
